@@ -13,7 +13,7 @@ from ..dataflow import default_of
 from ..effects import (TypeInfer, attr_channel, enum_channels, flag_channel,
                        inst_channel)
 from .markings import producer_before_consumer, stmt_closures
-from .util import actual, calls_in, enclosing
+from .util import actual, calls_in, ctor_arg, enclosing
 
 EXPLANATION = (
     "The behaviour (termination and language inclusion of a process-mining "
@@ -434,10 +434,7 @@ def r17(rep: Report, ctx: Ctx) -> None:
     if len(ctor) != 1:
         raise AnalysisError(f"{mk.qualname}: expected one SubGraphNode(...)")
     for k in ("uid", "start_uid", "end_uid", "break_uids"):
-        v = None
-        for kw_ in ctor[0].keywords:
-            if kw_.arg == k:
-                v = kw_.value
+        v = ctor_arg(ctx, ctor[0], "SubGraphNode", k)
         ok = isinstance(v, ast.Attribute) and v.attr == k and isinstance(
             v.value, ast.Name) and v.value.id == mk.params()[0]
         rep.ob("R1.7", f"SubGraphNode.{k} <- event.{k}", ok, fi=mk,
@@ -446,9 +443,7 @@ def r17(rep: Report, ctx: Ctx) -> None:
              and call_name(c) == "Node"]
     v = None
     for c in plain:
-        for kw_ in c.keywords:
-            if kw_.arg == "uid":
-                v = kw_.value
+        v = ctor_arg(ctx, c, "Node", "uid") or v
     rep.ob("R1.7", "Node.uid <- event.uid", unparse(v) ==
            f"{mk.params()[0]}.uid", fi=mk, node=plain[0] if plain else mk.node,
            detail=f"uid={unparse(v)}")
